@@ -473,7 +473,7 @@ def cases(tier, rng, escalate):
             allseq = list(itertools.product(frames_pool, repeat=n))
             if n == 3 or (n == 2 and not thorough):
                 rng.shuffle(allseq)
-                allseq = allseq[: (12 if thorough else 4)]
+                allseq = allseq[: (12 if thorough else 6)]
             seqs.extend(list(s) for s in allseq)
         for frames in seqs:
             for partial in [b""] + fr["partial"][: (2 if thorough else 1)]:
@@ -495,9 +495,9 @@ def cases(tier, rng, escalate):
                             cuts = [c for c in range(1, len(stream)) if rng.random() < 0.4]
                             chunkings.append(sc.cuts_to_chunks(stream, cuts))
                         ctag = "sampled-chunkings"
-                    if not thorough and len(chunkings) > 4:
+                    if not thorough and len(chunkings) > 6:
                         rng.shuffle(chunkings)
-                        chunkings = chunkings[:4]
+                        chunkings = chunkings[:6]
                     for chunks in chunkings:
                         buffered = rng.random() < 0.5
                         mode = rng.choice([0, 0, 1])
